@@ -195,6 +195,53 @@ def run(ctx):
             back_ok = good if back_ok is None else (back_ok and good)
     ctx.check(bool(chain_ok), 'R1', 'SwappedContext::suspend (sequential): i = process_index_++; i < count -> the i-th actor of the run list is next', where(sus), '', key='R1|SwappedContext::suspend|index chain')
     ctx.check(bool(back_ok), 'R2', 'SwappedContext::suspend (sequential): control returns to maestro only when i >= count', where(sus), '', key='R2|SwappedContext::suspend|back to maestro')
+    # parallel: a worker that finds no more work goes back to its own saved context (worker_context_, which resume() set to the context that was running on this thread), never to
+    # maestro's: several workers would otherwise swap into the one maestro context
+    par_ok = None
+    for p in v.paths():
+        if p.exit in ('noreturn', 'cut'):
+            continue
+        evs = v.path_events(p)
+        par = [e.pol for e in evs if e.kind == 'branch' and 'is_parallel' in repr(e.atom)]
+        if par != [True]:
+            continue
+        nxt = [e for e in evs if e.kind == 'assign' and e.lhs[0] == 'var' and e.lhs[2] == 'next_context' and e.rhs != ('none',)]
+        if len(nxt) != 1:
+            par_ok = False
+            continue
+        r = nxt[0].rhs
+        for _ in range(4):
+            while r[0] in ('cast', 'conv'):
+                r = r[2]
+            if r[0] == 'var' and r[1] == 'local':
+                ds = [e for e in evs[:evs.index(nxt[0])] if e.kind == 'assign' and e.lhs == r]
+                if len(ds) == 1:
+                    r = ds[0].rhs
+                    continue
+            break
+        took_work = any(s[0] == 'call' and isinstance(s[1], str) and s[1].endswith('::get') for s in ex.subterms(nxt[0].rhs)) or any(s[0] == 'field' and s[2].endswith('::context_') for s in ex.subterms(nxt[0].rhs))
+        if took_work:
+            continue
+        good = (r[0] in ('field', 'global', 'var') and repr(r).count('worker_context_') == 1)
+        par_ok = good if par_ok is None else (par_ok and good)
+    res = P.fn(CX + 'SwappedContext::resume')
+    rv = A.view(res)
+    saved = None
+    for p in rv.paths():
+        if p.exit in ('noreturn', 'cut'):
+            continue
+        evs = rv.path_events(p)
+        par = [e.pol for e in evs if e.kind == 'branch' and 'is_parallel' in repr(e.atom)]
+        if par != [True]:
+            continue
+        selfv = [e.lhs for e in evs if e.kind == 'assign' and any(s_[0] == 'call' and isinstance(s_[1], str) and s_[1].endswith('Context::self') for s_ in ex.subterms(e.rhs))]
+        st = [e for e in evs if e.kind == 'assign' and 'worker_context_' in repr(e.lhs)]
+        sw = [e for e in evs if e.kind == 'call' and e.q.endswith('::swap_into')]
+        good = len(st) == 1 and bool(selfv) and (st[0].rhs in selfv or any(s_[0] == 'call' and isinstance(s_[1], str) and s_[1].endswith('Context::self') for s_ in ex.subterms(st[0].rhs))) and \
+            bool(sw) and evs.index(st[0]) < evs.index(sw[0])
+        saved = good if saved is None else (saved and good)
+    ctx.check(bool(par_ok) and bool(saved), 'R2', 'SwappedContext (parallel): resume() saves the context running on this thread in worker_context_ before swapping, and a worker without more work swaps back into it', where(sus),
+              'suspend goes back to worker_context_: %s; resume saves self() first: %s' % (par_ok, saved), key='R2|SwappedContext::suspend|back to the worker context')
     raa = P.fn(EI + '::run_all_actors')
     v = A.view(raa)
     okm = any(e.kind == 'call' and e.q.endswith('ContextFactory::run_all') and e.args == (lib.this_field(EI + '::actors_to_run_'),) for p in v.paths(max_visits=1) for e in v.path_events(p))
